@@ -147,13 +147,14 @@ KANI_UNITS['tsops'] = {
 
 PROPERTIES = {
   'C02': {
-    'verus': ['tripcount', 'algebra', 'foldv', 'dce', 'ccpbin', 'loopguard'],
+    'verus': ['tripcount', 'algebra', 'foldv', 'dce', 'ccpbin', 'loopguard', 'licm', 'csehoist', 'ivelim'],
     'kani': ['fold', 'mirbin', 'induction'],
     'level': 'proof',
     'scope': 'arithmetic kernels only: constant folding, algebraic merging, operand reordering / comparison flipping, '
              'induction-variable algebra, guard operators, trip-count closed forms; the algebraic simplifications of constant propagation (x+0, x*0, x*1, x/1, x%1, x-x, x%x, x/x, folding) equal the '
              'target result for every valuation; dead-code elimination keeps every operation that can '
-             'trap and every call (Binary and Call arms); the other statement-level pass drivers are not covered',
+             'trap and every call (Binary and Call arms); LICM and CSE never move an operation that can trap; the comparison of the guard built by '
+             'induction-variable elimination; the other statement-level pass drivers are not covered',
   },
   'C05': {
     'verus': ['lexer', 'tripcount'],
@@ -196,15 +197,18 @@ PROPERTIES = {
              'runtime libraries (libsam.wat, TS prolog) and Vec are not covered',
   },
   'C06': {
-    'verus': ['litgate', 'errgate', 'checkgates', 'visgate', 'ssascope'],
+    'verus': ['litgate', 'errgate', 'checkgates', 'visgate', 'ssascope', 'usegates', 'ssanames'],
     'kani': [],
     'level': 'proof',
     'scope': 'two kernels only: an integer literal outside the 32-bit range is reported (TokenProducer::process_raw_token); an error '
              'once reported stays in the ErrorSet (report_error, merge), has_errors sees it, and compile_sources returns Err before '
              'any code is produced; two checker gates: a type argument that violates its parameter\'s bound is reported, a failed '
              'assignability test is reported (the tests themselves are opaque); get_method_type hands out a private member only to its '
-             'own class (same module and name) and nothing of a private toplevel of another module; private fields likewise; the variables of an `if let` pattern are in scope in the then-block only (visit_if_else); every other checker-side clause of C06 (arity, '
-             'resolution, visibility, conformance, exhaustiveness: that the error IS reported) is not covered',
+             'own class (same module and name) and nothing of a private toplevel of another module; private fields likewise; the variables of an `if let` pattern are in scope in the then-block only (visit_if_else); '
+             'use sites: a call with too many or too few arguments is reported, the condition of an if-else is checked against bool and its else branch against the first branch, '
+             'an object pattern stores each field\'s abstract pattern in the column of the field it names; every type / class name written in an annotation or in the explicit '
+             'type arguments of a member access is looked up (visit_annot, visit_id_annot, use_id); the other checker-side clauses of C06 '
+             '(conformance, the exhaustiveness algorithm itself, resolution of members) are exercised only by the bounded single-fault corpus',
   },
   'C08': {
     'verus': ['paren', 'strlit', 'ifchain', 'lexer'],
@@ -290,6 +294,13 @@ STANDING_ASSUMPTIONS = {
                  'subst_nominal_type) are opaque: only "a failed test is reported" is proved; ErrorSet reduced to its error count'],
   'visgate': ['Verus/Z3; signature lookup (resolve_interface_cx + filter, resolve_function_signature, resolve_method_signature) is opaque; '
               'NominalType / MemberSignature / TypingContext reduced to the fields read (R6); == on names and module references is their PartialEq'],
+  'usegates': ['Verus/Z3; R14 blocks of check_function_call, check_if_else, check_matching_pattern: what the enclosing functions do around the '
+               'blocks (which arm is taken, the early return after the arity error) is not under contract; type_check_expression, check_block, '
+               'check_if_else (recursive call), check_matching_pattern (recursive call) are opaque and only never retract an error; '
+               'assignability_check carries the contract proved in unit checkgates; the syntax tree is reduced to the fields read (R6)'],
+  'ssanames': ['Verus/Z3; the scope stack is opaque (`resolves`), use_define_map / unbound_names are write-only stubs; annotations reduced to the '
+               'fields the visitors read (R6); Option::iter().flat_map(..) loops written as if-let + loop (R17) and the destructuring parameter of '
+               'visit_id_annot as a let (R11); visit_expression (the rest of it) is opaque: leaves the scopes as found, never retracts an error'],
   'ssascope': ['Verus/Z3; scopes are abstract; push_scope / pop_scope / visit_matching_pattern / visit_block / visit_expression are stubs '
                'with their intended effect on the scope stack, and a ghost log records under which stack blocks are analysed; the recursive '
                'call of visit_if_else goes through a stub with the same contract'],
@@ -303,6 +314,12 @@ STANDING_ASSUMPTIONS = {
              '(quote and backslash are ASCII, so the two views agree on them: assumed)'],
   'loopguard': ['Verus/Z3; the enclosing match of extract_loop_guard_structure (which statements are the comparison and the `if`) is outside '
                 'the R14 block; `single_if_stmts[0].as_break().unwrap()` is a stub (R3); values are mathematical integers (comparisons only)'],
+  'licm': ['Verus/Z3; expression_is_loop_invariant by its meaning (not a variable the loop changes); the statement type reduced to the Binary variant (R6); '
+           'the other arms of LICM (IndexedAccess, StructInit, ...) and the enclosing match are outside the block (R14)'],
+  'csehoist': ['Verus/Z3; vstd BTreeSet specification with obeys_cmp for the derived Ord of BindedValue (assumed); operands opaque; the if-else '
+               'arm that moves the common values is outside the block (R14)'],
+  'ivelim': ['Verus/Z3 nonlinear lemmas over mathematical integers (no wrap-around of m*i + c); only the construction of the new guarded variable is '
+             'extracted (R14); that the new bound is m*g + c is read off the prefix statements, not proved'],
   'ccpbin': ['Verus/Z3; contract of evaluate_bin_op assumed here and proved in units fold / foldv; checked_bind reduced to "binds the name" '
              '(its panic on re-binding is a precondition: SSA names are bound once); bitwise / shift results uninterpreted; '
              'R16 moves a match guard into its arm (Verus loses `final` of &mut parameters across guarded arms)'],
